@@ -83,6 +83,7 @@ class Part:
     enumerate: Callable[["Ctx"], Iterable[Any]] | None = None  # finite enumeration
     quick: int = 200
     thorough: int = 20000  # total over all shards (like quick)
+    custom: Callable[["Ctx", Any, "Part"], None] | None = None  # runs its own campaign (e.g. atheris)
     shard_enumeration: bool = True  # enumerations are split i % nshards == shard
     exhaustive_note: str = ""
 
@@ -399,6 +400,14 @@ def run_shard(module: Any, ctx: Ctx) -> dict:
     only = os.environ.get("VERIF_PARTS")
     for part in module.PARTS:
         if only and part.name not in only.split(","):
+            continue
+        if part.custom is not None:
+            try:
+                part.custom(ctx, runner, part)
+            except Violation:
+                pass
+            if runner.failure is not None:
+                break
             continue
         if part.enumerate is None and part.strategy is None:
             continue  # replay-only part
